@@ -4,6 +4,9 @@ package main
 // after every step and records violations with the property they belong to.
 
 import (
+	"os"
+	"crypto/sha256"
+	"encoding/hex"
 	"fmt"
 	"sort"
 	"strconv"
@@ -111,6 +114,8 @@ type RunOpts struct {
 	Verbose     bool
 }
 
+var chainLog *os.File // set by `sim selftest -log`: one line per execution
+
 type Runner struct {
 	P     *Plan
 	Opts  RunOpts
@@ -125,6 +130,7 @@ type Runner struct {
 	Stats *RunStats
 	stop  bool
 	OnPrimary func(i int, req ExecReq, t *Transcript) // observer of the primary's executions (corpus generation)
+	Chain string // hash chain over every execution of every node (determinism self-test)
 }
 
 func NewRunner(p *Plan, opts RunOpts) *Runner {
@@ -473,6 +479,27 @@ func addrLoc(a uint64, name string) common.AddressLocation {
 }
 
 func (r *Runner) account(n *Node, t *Transcript) {
+	// With AtreeValidationEnabled (a debug configuration) atree's validation walks Go maps of slabs: the ORDER of the register reads
+	// and of the metering calls it causes varies from run to run (their multiset, all results and all writes do not). Those nodes
+	// contribute their outcome, writes and metering totals to the chain, the others also their complete call and gauge sequences.
+	seq := t.TraceDigest(false) + "|" + t.GaugeDigest
+	if n.Cfg.AtreeValidation {
+		seq = fmt.Sprintf("%d|%d|%d", len(t.Trace), t.MemN, t.CompN)
+	}
+	hc := sha256.Sum256([]byte(r.Chain + "|" + n.Cfg.Name + "|" + t.Summary() + "|" + t.WritesDigest() + "|" + seq + "|" + fmt.Sprint(t.Fired)))
+	r.Chain = hex.EncodeToString(hc[:12])
+	if chainLog != nil {
+		sh := sha256.Sum256([]byte(t.Summary()))
+		fmt.Fprintf(chainLog, "%s class=%s type=%s summary=%x writes=%s trace=%s gauge=%s fired=%v\n", n.Cfg.Name, t.Class, t.ErrType, sh[:6], t.WritesDigest(), t.TraceDigest(false), t.GaugeDigest, t.Fired)
+		if os.Getenv("VERIF_CHAINLOG_TRACES") != "" {
+			for i, c := range t.Trace {
+				fmt.Fprintf(chainLog, "   T%d %s\n", i, clip(c.String(), 200))
+			}
+			for i, g := range t.Gauge {
+				fmt.Fprintf(chainLog, "   G%d %x\n", i, g)
+			}
+		}
+	}
 	r.Stats.Execs++
 	r.Stats.ByEngine[n.Cfg.Engine]++
 	r.Stats.GaugeCalls += t.GaugeN
